@@ -65,6 +65,11 @@ def truth_table(ctx, k):
 
         def one(asm, sp):
             I, st, v, r = run_interp_production(ctx, "jumps_condition", k, assume=asm, split=sp, pre=pre)
+            if v is not None and v.kind == "int" and not v.is_const():
+                # the predicate is returned as a value (no branch forced a case split): split on a flag bit it depends on
+                need = sorted(d for d in v.deps() if d in sp)
+                if need:
+                    raise NeedSplit(need[0][0], need[0][1])
             return I, st, v
         leaves = run_split(one, split)
         for asm, (I, st, v) in leaves:
@@ -77,9 +82,26 @@ def truth_table(ctx, k):
                 row = dict(fixed)
                 row.update(dict(zip(free, vals)))
                 table[(cname, tuple(row[n] for n in STATUS))] = bool(v.lo)
-            other = [b for (a, b) in asm if b not in [FBIT[n] for n in STATUS]]
-            if other:
-                return None, f"predicate reads non-status flag bits {other}"
+        # case splits on flag bits outside the five status flags: harmless if the outcome does not change with them,
+        # a defect if it does (a conditional jump may depend on CF, PF, ZF, SF, OF and CX only)
+        status_bits = [FBIT[n] for n in STATUS]
+        seen_rows = {}
+        for asm, (I, st, v) in leaves:
+            other = {b: val for (a, b), val in asm.items() if b not in status_bits}
+            if not other:
+                continue
+            fixed = {name: asm.get(("flag", FBIT[name])) for name in STATUS}
+            free = [n for n in STATUS if fixed[n] is None]
+            for vals in itertools.product((0, 1), repeat=len(free)):
+                row = dict(fixed)
+                row.update(dict(zip(free, vals)))
+                key = (cname, tuple(row[n] for n in STATUS))
+                prev = seen_rows.get(key)
+                if prev is not None and prev[0] != bool(v.lo):
+                    diff = sorted(b for b in set(other) | set(prev[1]) if other.get(b) != prev[1].get(b))
+                    names = {v_: k_ for k_, v_ in FBIT.items()}
+                    return "depends", (key, [names.get(b, f"bit{b}") for b in diff] or ["a non-status flag"])
+                seen_rows[key] = (bool(v.lo), other)
     return (table, effects), None
 
 
@@ -161,6 +183,12 @@ def run(ctx, chk):
             res, err = truth_table(ctx, k)
         except Unsupported as e:
             res, err = None, str(e)
+        if res == "depends":
+            (cname_, vals_), flags_ = err
+            chk.violation("C06.R1", m, "depends-on-" + "+".join(flags_), f"'{m}' gives different outcomes for the same CF,PF,ZF,SF,OF = {dict(zip(STATUS, vals_))} depending on "
+                          f"{flags_}: a conditional transfer may only look at the five status flags (and CX)", where, f"{dict(zip(STATUS, vals_))} CX={cname_}, {flags_} = 0 vs 1")
+            tables[m] = None
+            continue
         if res is None:
             chk.undecided_("C06.R1", m, err)
             continue
@@ -221,7 +249,7 @@ def run(ctx, chk):
 
     # R5 corollaries
     for a, b in COMPLEMENTS:
-        if a in tables and b in tables:
+        if tables.get(a) and tables.get(b):
             if all(tables[a][key] != tables[b][key] for key in tables[a]):
                 chk.ok("C06.R5", f"{a}/{b}", "complements on every row")
             else:
@@ -286,6 +314,7 @@ def run(ctx, chk):
 def spelling_rule(ctx, chk, tables):
     """assembler quote_jmps_loops: terminal spelling -> emitted mnemonic (string literal of the action)"""
     GA = ctx.gram("preprocessor")
+    G = ctx.gram("interpreter")
     nt = "quote_jmps_loops"
     if nt not in GA.nts:
         chk.undecided_("C06.R6", nt, "nonterminal not found in the assembler grammar")
@@ -306,8 +335,15 @@ def spelling_rule(ctx, chk, tables):
         if key not in INTEL:
             chk.violation("C06.R6", src, "unknown-spelling", f"assembler accepts '{src}', not an 8086 conditional transfer", where)
             continue
-        if emitted not in tables:
-            chk.violation("C06.R6", src, "emits-unknown-mnemonic", f"'{src}' is emitted as '{emitted}', for which the interpreter has no (decidable) predicate", where)
+        interp_mnems = {[s_["name"].strip('"') for s_ in p_["symbols"] if s_["t"] == "term"][0] for p_ in G.productions("jumps_condition")}
+        if emitted not in interp_mnems:
+            chk.violation("C06.R6", src, "emits-unknown-mnemonic", f"'{src}' is emitted as '{emitted}', which the interpreter grammar does not have", where)
+            continue
+        if tables.get(emitted) is None:
+            if emitted in tables:
+                chk.violation("C06.R6", src, "predicate", f"source '{src}' runs as '{emitted}', whose predicate is not a function of the status flags (see C06.R1)", where)
+            else:
+                chk.undecided_("C06.R6", src, f"the predicate of '{emitted}' could not be tabulated (C06.R1 undecided)")
             continue
         want = intel_table(key)
         bad = [kk for kk in want if tables[emitted].get(kk) != want[kk]]
